@@ -17,6 +17,32 @@ type Reader struct {
 	off  int
 	// Salt distinguishes two concrete streams of the same name (paired runs of C07).
 	Salt string
+	// failure injection (C07): the failAt-th consumption (0-based, element draws and raw reads
+	// alike) returns an error once; later consumptions succeed again.
+	calls   int
+	failAt  int
+	hasFail bool
+	fired   bool
+}
+
+// InjectFailure makes the k-th consumption of this stream fail (once).
+func (rd *Reader) InjectFailure(k int) { rd.failAt, rd.hasFail = k, true }
+
+// Calls returns the number of consumptions so far; Fired whether the injected failure happened.
+func (rd *Reader) Calls() int  { return rd.calls }
+func (rd *Reader) Fired() bool { return rd.fired }
+
+// ErrInjected is the error of an injected read failure.
+var ErrInjected = fmt.Errorf("symalg: injected failure of the random source")
+
+func (rd *Reader) tick() error {
+	k := rd.calls
+	rd.calls++
+	if rd.hasFail && !rd.fired && k == rd.failAt {
+		rd.fired = true
+		return ErrInjected
+	}
+	return nil
 }
 
 // ReadEvent records one consumption of randomness.
@@ -49,6 +75,9 @@ func (r *Run) ReadEvents() []ReadEvent { return r.monitor }
 func (rd *Reader) Read(p []byte) (int, error) {
 	rd.run.mu.Lock()
 	defer rd.run.mu.Unlock()
+	if err := rd.tick(); err != nil {
+		return 0, err
+	}
 	rd.run.monitor = append(rd.run.monitor, ReadEvent{Reader: rd.Name, Actor: rd.run.current, Offset: rd.off, N: len(p), Kind: "bytes"})
 	for i := range p {
 		blk := (rd.off + i) / 32
@@ -71,6 +100,9 @@ func (r *Run) drawName(prng io.Reader, n int, kind string) (string, error) {
 	if rd, ok := prng.(*Reader); ok {
 		r.mu.Lock()
 		defer r.mu.Unlock()
+		if err := rd.tick(); err != nil {
+			return "", err
+		}
 		name := fmt.Sprintf("rnd:%s@%d", rd.Name, rd.off)
 		r.monitor = append(r.monitor, ReadEvent{Reader: rd.Name, Actor: r.current, Offset: rd.off, N: n, Kind: kind})
 		rd.off += n
